@@ -152,8 +152,18 @@ endfunction
 function addOne(v):
     return v + 1
 endfunction
+function isOne(v):
+    return v == 1
+endfunction
+function isZero(v):
+    return v == 0
+endfunction
+function cmpOps(a, b):
+    return if(a < b, 0 - 1, if(a == b, 0, 1))
+endfunction
 '''
 SCRIPT_FNS = ['cmpNum', 'cmpDesc', 'isTwo', 'isBig', 'elemAt', 'addOne']
+NB_SCRIPT_FNS = ['isOne', 'isZero', 'cmpOps']        # used by the equal-neighbours stream only (the random generators draw from SCRIPT_FNS)
 SAFE_LIB_FNS = ['mathAbs', 'stringNew', 'systemType', 'arrayLength', 'systemBoolean', 'mathMax', 'arrayGet', 'stringLength',
                 'systemCompare', 'mathFloor', 'stringSlice', 'arrayNew', 'stringCharCodeAt']
 _ENV = {}
@@ -166,7 +176,7 @@ def env():
         g = {}
         m['runtime'].execute_script(m['parser'].parse_script(PRELUDE), {'globals': g, 'maxStatements': 1000})
         _ENV.clear()
-        _ENV.update({'lib': m['library'], 'script': {k: g[k] for k in SCRIPT_FNS}})
+        _ENV.update({'lib': m['library'], 'script': {k: g[k] for k in SCRIPT_FNS + NB_SCRIPT_FNS}})
     return _ENV
 
 
@@ -175,8 +185,11 @@ class Speller:
         self.spelling = spelling
         self.count = 0
 
-    def num(self, n):
+    def num(self, n, role=None):
         self.count += 1
+        if self.spelling.startswith('kc:'):
+            # 'kc:if': the numbers in the KEY role (no 'role' mark) as int, the numbers marked {'n': .., 'role': 'c'} (held by the COLLECTION) as float
+            return int(n) if self.spelling[4 if role == 'c' else 3] == 'i' else float(n)
         if self.spelling == 'int':
             return int(n)
         if self.spelling == 'float':
@@ -194,7 +207,7 @@ def build(enc, sp):
     if enc is None or isinstance(enc, (bool, str)):
         return enc
     if 'n' in enc:
-        return sp.num(enc['n'])
+        return sp.num(enc['n'], enc['role']) if 'role' in enc else sp.num(enc['n'])
     if 'f' in enc:
         return float(enc['f'])
     if 'a' in enc:
@@ -2475,6 +2488,196 @@ FINDING_MATCHERS = {'F15': _is_f15, 'F44': _is_f44}
 
 
 # ---------------------------------------------------------------------------------------------------------------------
+# HOST-EQUAL NEIGHBOURS of a number that are values of ANOTHER BareScript type.  Python's == / hash / str say True == 1 == 1.0, False == 0 == 0.0,
+# str(1) == '1' but str(1.0) == '1.0', a datetime's timestamp is a number: a function that searches, compares, buckets or deduplicates BY VALUE and
+# takes a host-level shortcut for ONE spelling of the number (list.index / `in` / a dict or set keyed by the raw value or by its text) still agrees
+# with value_compare on every collection of numbers - it differs only when the collection holds such a neighbour at / before / after the equal
+# number.  Implementation-side oracle only (spelling-irrelevant:equal-neighbours): LibH models arrayIndexOf / arrayLastIndexOf by value_compare
+# (C12.cmpEq_refines), the other consumers (sort, max / min, the data functions' bucket keys) are outside the modelled subset.
+# ---------------------------------------------------------------------------------------------------------------------
+
+NB_SPELLINGS = ('int', 'float', 'kc:if', 'kc:fi', 'mix', 'xim')      # kc:XY = the key as X, the collection's own copies of the number as Y
+NB_DT = {'dt': [2020, 1, 31, 10, 20, 30, 500000]}
+NB_EPOCH_MS = int(round(datetime.datetime(*NB_DT['dt']).timestamp() * 1000))     # the epoch number of NB_DT (naive = local time, as the library reads it)
+NB_WRAPS = (None, 'a', 'o')                                            # the values as they are / each inside a one-element array / inside an object
+
+
+def CN(n):
+    """The collection's own copy of the number (spelled apart from the key under kc:XY)."""
+    return {'n': int(n), 'role': 'c'}
+
+
+def nb_neighbours(k):
+    """Values of OTHER types that some host-level notion (==, hash, str, truthiness, timestamp) identifies with the number k."""
+    out = []
+    if k in (0, 1):
+        out.append(bool(k))
+    if k == 0:
+        out += [None, '']
+    out += [str(k), repr(float(k))]
+    if k == NB_EPOCH_MS:
+        out.append(NB_DT)
+    elif k not in (0, 1):
+        out.append(True)
+    if k == 1:
+        out.append(False)
+    return out
+
+
+NB_KEYS = [0, 1, 2, -1, NB_EPOCH_MS, NB_EPOCH_MS // 1000, 10 ** 15 - 1]
+
+
+def nb_wrap(enc, wrap):
+    return enc if wrap is None else (A(enc) if wrap == 'a' else O(v=enc))
+
+
+def nb_collections(k, max_subset, full):
+    """Collections for the key k: every subset of its neighbours of size 1..max_subset (and the whole set if `full`), in EVERY order, x the equal
+    number absent / present at every position / present twice (first and last: int and float under the alternating spellings)."""
+    import itertools
+    nbs = nb_neighbours(k)
+    subsets = [list(c) for r in range(1, max_subset + 1) for c in itertools.combinations(range(len(nbs)), r)]
+    if full and len(nbs) > max_subset:
+        subsets.append(list(range(len(nbs))))
+    seen = set()
+    for sub in subsets:
+        perms = itertools.permutations(sub) if len(sub) <= 3 else [tuple(sub), tuple(reversed(sub)), tuple(sub[1:] + sub[:1])]
+        for perm in perms:
+            items = [nbs[i] for i in perm]
+            colls = [(items, 'absent')]
+            for pos in range(len(items) + 1):
+                colls.append((items[:pos] + [CN(k)] + items[pos:], 'first' if pos == 0 else ('last' if pos == len(items) else 'middle')))
+            colls.append(([CN(k)] + items + [CN(k)], 'twice'))
+            for coll, where in colls:
+                key = repr(coll)
+                if key not in seen:
+                    seen.add(key)
+                    yield coll, where
+
+
+def nb_rows(coll, extra=()):
+    return A(*[O(a=c, b=CN(2 ** i)) for i, c in enumerate(list(coll) + list(extra))])
+
+
+def nb_consumers(k, wrap, coll):
+    """(function, arguments, expression alias or None): every value-searching / comparing / bucketing / deduplicating use of the key against `coll`."""
+    K = nb_wrap(N(k), wrap)
+    coll = [nb_wrap(c, wrap) for c in coll]
+    n = len(coll)
+    arr = A(*coll)
+    yield 'arrayIndexOf', [arr, K], None
+    yield 'arrayLastIndexOf', [arr, K], None
+    if n >= 2:
+        yield 'arrayIndexOf', [arr, K, N(1)], None
+        yield 'arrayLastIndexOf', [arr, K, N(n - 2)], None
+    if wrap is None and k in (0, 1, 2):
+        yield 'arrayIndexOf', [arr, {'fn': {0: 'isZero', 1: 'isOne', 2: 'isTwo'}[k]}], None
+        yield 'arrayLastIndexOf', [arr, {'fn': {0: 'isZero', 1: 'isOne', 2: 'isTwo'}[k]}], None
+    if any(isinstance(c, dict) and c.get('role') == 'c' for c in (coll if wrap is None else [x for w in coll for x in (w.get('a') or [v for _, v in w['o']])])):
+        # the other way round: each neighbour as the search value / join key against the collection holding the number
+        seen = []
+        for c in coll:
+            if c not in seen and not (isinstance(c, dict) and count_nums(c)):
+                seen.append(c)
+                yield 'arrayIndexOf', [arr, c], None
+                yield 'arrayLastIndexOf', [arr, c], None
+                yield 'dataJoin', [A(O(a=c, l='L')), nb_rows(coll), 'a'], None
+    yield 'arraySort', [A(*(coll + [K]))], None
+    yield 'arraySort', [A(*([K] + coll)), {'fn': 'systemCompare'}], None
+    yield 'arraySort', [A(*(coll + [K])), {'fn': 'cmpOps'}], None
+    yield 'mathMax', coll + [K], None
+    yield 'mathMax', [K] + coll, 'max'
+    yield 'mathMin', coll + [K], 'min'
+    yield 'mathMin', [K] + coll, None
+    yield 'systemCompare', [arr, A(*([K] + coll[1:]))], None
+    yield 'systemCompare', [A(*(coll[:-1] + [K])), arr], None
+    rows = nb_rows(coll)
+    rows_k = nb_rows(coll, [K])
+    yield 'dataJoin', [A(O(a=K, l='L')), rows, 'a'], None
+    yield 'dataJoin', [rows, A(O(a=K, r='R')), 'a', None, True], None
+    yield 'dataJoin', [rows_k, rows_k, 'a', 'a'], None
+    yield 'dataAggregate', [rows_k, O(categories=A('a'), measures=A(O(field='b', function='sum'), O(field='b', function='count', name='n')))], None
+    yield 'dataTop', [rows_k, N(1), A('a')], None
+    yield 'dataSort', [rows_k, A(A('a'))], None
+    yield 'dataSort', [nb_rows([K], coll), A(A('a', True))], None
+    yield 'dataFilter', [rows, 'a == k', O(k=K)], None
+    if wrap is None:
+        yield 'dataFilter', [rows, 'a == ' + (str(k) if k >= 0 else '(0 - %d)' % -k)], None
+        yield 'dataCalculatedField', [rows, 'z', 'if(a == k, 1, if(a < k, 2, 3))', O(k=K)], None
+
+
+def nb_pair_cases(k, wrap):
+    """The key against ONE neighbour (or its own collection copy): compare / identity functions and the six comparison operators, both orders."""
+    K = nb_wrap(N(k), wrap)
+    for c in nb_neighbours(k) + [CN(k)]:
+        c = nb_wrap(c, wrap)
+        for fname in ('systemCompare', 'systemIs'):
+            yield {'kind': 'call', 'fn': fname, 'args': [K, c], 'nbr': 1}
+            yield {'kind': 'call', 'fn': fname, 'args': [c, K], 'nbr': 1}
+        for op in ('==', '!=', '<', '<=', '>', '>='):
+            yield {'kind': 'binary', 'op': op, 'left': K, 'right': c}
+            yield {'kind': 'binary', 'op': op, 'left': c, 'right': K}
+    if wrap is None:
+        obj = O([str(k), 's'], [repr(float(k)), 'f'], ['true', 't'], ['false', 'b'], ['null', 'n'], ['', 'e'])
+        for fname, rest in (('objectGet', []), ('objectGet', ['dflt']), ('objectHas', []), ('objectSet', ['x']), ('objectDelete', [])):
+            yield {'kind': 'call', 'fn': fname, 'args': [obj, N(k)] + rest, 'nbr': 1}
+
+
+def nbr_differs(case):
+    outs, classes = {}, {}
+    for sp in NB_SPELLINGS:
+        outs[sp], classes[sp] = run_call(case, sp)
+    return any(v != outs['int'] for v in outs.values()), outs, classes
+
+
+def nb_cases(ctx):
+    """quick: keys 0 and 1 with neighbour subsets up to 2 (+ the whole set), the other keys with single neighbours (+ the whole set), unwrapped; the wrapped
+    forms for single neighbours.  thorough: subsets up to 3 for every key, wrapped forms up to 2."""
+    lib = fw.impl()['library']
+    for k in NB_KEYS:
+        for wrap in NB_WRAPS:
+            if wrap is None:
+                max_subset = ctx.scale(2 if k in (0, 1) else 1, 3)
+            else:
+                max_subset = ctx.scale(1, 2)
+            for case in nb_pair_cases(k, wrap):
+                if case['kind'] != 'call' or case['fn'] in lib.SCRIPT_FUNCTIONS:
+                    yield case, k, wrap, 'pair'
+            for coll, where in nb_collections(k, max_subset, full=wrap is None or ctx.scale(0, 1)):
+                for fname, args, alias in nb_consumers(k, wrap, coll):
+                    if fname not in lib.SCRIPT_FUNCTIONS or (alias and alias not in lib.EXPRESSION_FUNCTIONS):
+                        continue
+                    case = {'kind': 'call', 'fn': fname, 'args': args, 'nbr': 1}
+                    if alias:
+                        case['expr'] = alias
+                    yield case, k, wrap, where
+
+
+def equal_neighbours_stream(ctx, lim):
+    st = ctx.stream('equal-neighbours', 'functions that SEARCH, COMPARE, BUCKET or DEDUPLICATE by value (arrayIndexOf / arrayLastIndexOf with a value, a start index, a match '
+                                        'function; arraySort default / systemCompare / a script comparator written with < and ==; mathMax / mathMin and the expression functions max / min; systemCompare, '
+                                        'systemIs; == != < <= > >=; dataJoin keys, dataAggregate / dataTop categories, dataSort keys, dataFilter / dataCalculatedField '
+                                        'comparisons; objectGet / Has / Set / Delete with number-lookalike keys; and the other way round: each neighbour as search value / '
+                                        'join key against the collection holding the number) x the keys %r x collections made of the key\'s HOST-EQUAL '
+                                        'neighbours of other BareScript types (true / false next to 1 / 0, null and \'\' next to 0, the texts \'1\' and \'1.0\', a datetime next to its '
+                                        'epoch milliseconds / seconds) - every subset up to a size, in EVERY order, with the equal number absent / at every position / '
+                                        'twice - as plain values, each inside a one-element array, each inside an object; run with the key and the collection\'s own '
+                                        'copies of the number spelled int/int, float/float, int/float, float/int and alternating x 2; results, failure, post-call '
+                                        'arguments compared by value. Implementation-side oracle only (the lookalike question is about host ==, hash and str, which the '
+                                        'Lean models do not have). all non-trivial' % (NB_KEYS,))
+    for case, k, wrap, where in nb_cases(ctx):
+        tags = [f'key:{k if abs(k) < 1000 else ("epoch" if k in (NB_EPOCH_MS, NB_EPOCH_MS // 1000) else "big")}', f'wrap:{wrap}', f'number:{where}']
+        if case['kind'] == 'binary':
+            check_case(ctx, lim, st, case, 'nbr', key='nbr:', tags=tags, nontrivial=True)
+            continue
+        differ, outs, classes = nbr_differs(case)
+        st.case(case, nontrivial=True, tags=tags + [f'fn:{case["fn"]}', 'failed' if outs['int']['failed'] else 'ok'])
+        if differ:
+            bad = next(sp for sp in NB_SPELLINGS if outs[sp] != outs['int'])
+            lim.witness('nbr:' + case['fn'], 'spelling-irrelevant:equal-neighbours', case, outs['int'], outs[bad], spelling_of_actual=bad, exception_classes=classes)
+
+
+# ---------------------------------------------------------------------------------------------------------------------
 # Correspondence with the Lean host-level model (both spellings) - see Drv/C12.lean
 # ---------------------------------------------------------------------------------------------------------------------
 
@@ -2719,6 +2922,9 @@ def streams(ctx):
     # --- the sign of a zero result (known finding F44); implementation-side only
     zero_sign_stream(ctx, lim, names, models)
 
+    # --- searching / comparing / bucketing by value among the host-equal neighbours of the number; implementation-side only
+    equal_neighbours_stream(ctx, lim)
+
     # --- correspondence: implementation vs Lean LibH for both spellings (+ the abstract spec)
     st = ctx.stream('libh-model', 'modelled host-level subset (%s): implementation vs Lean LibH on the int, float and alternating spelling and vs '
                                   'the abstract one-number-type function; by-value cases without aliasing; non-trivial = an integral number occurs' % ', '.join(MODELLED))
@@ -2862,6 +3068,8 @@ def replay(witness):
         return zsign_differs(case)[0]
     if case.get('fresh'):
         return fresh_differs([case])[0][0]
+    if case['kind'] == 'call' and case.get('nbr'):
+        return nbr_differs(case)[0]
     if case['kind'] == 'call':
         return (call_differs_ext(case) if case.get('ext') else call_differs(case))[0]
     if case['kind'] in ('binary', 'unary'):
@@ -2898,7 +3106,9 @@ LEVEL_TEXT = ('Theorems (all arguments, all argument-model tables): for the host
               'over 9 bases from year 1 to 9999 x the whole ladder (stream datetime-scale), the data functions over rows of large values (data-scale), '
               'and histories in a fresh interpreter that first produce and print -0.0 / true / false and run the case on every ==-equal neighbour of '
               'its numbers (neighbour-history) are implementation-side only, as is the sign-sensitive comparison of zero results (zero-sign: the models are '
-              'over rationals and have no negative zero).')
+              'over rationals and have no negative zero) and the search / compare / bucket / deduplicate consumers run against collections of the '
+              'HOST-EQUAL neighbours of the number that belong to other BareScript types (equal-neighbours: true / false, null, \'\', the texts \'1\' / \'1.0\', '
+              'a datetime and its epoch number, in every order around the equal number, key and collection spelled independently).')
 LEVEL_NOTE = ('proof for the host-level subset (index/count/size/radix/char-code users); translation-validation strength for the remaining library '
               'functions, where numbers only flow into comparison/arithmetic/stringification and Python int-vs-float mixed operations are exact on '
               'the values (assumption, DESIGN 6) - those are covered by the libnum/operators/script streams, not by a theorem. The model is by-value '
